@@ -369,6 +369,8 @@ impl<'a, T: RealNumber, M: Matrix<T>, K: Kernel<T, M::RowVector>> Optimizer<'a, 
         self.find_min_max_gradient();
 
         while self.gmax - self.gmin > self.tol {
+            #[cfg(smartcore_verif)]
+            crate::verif::tick("svr-smo");
             let v1 = self.svmax;
             let i = self.gmaxindex;
             let old_alpha_i = self.sv[v1].alpha[i];
